@@ -39,6 +39,9 @@ type Backend struct {
 	ReflCalls   int
 	LastMethod  string
 	LastMD      metadata.MD
+	// FailCloseSend makes the reflection stream's CloseSend fail (the connection broke at the
+	// very end of the exchange).
+	FailCloseSend bool
 	// FailReflection makes the n-th reflection request fail (1-based; 0 = never).
 	FailReflection int
 	reflReqs       int
@@ -115,8 +118,14 @@ type reflStream struct {
 
 func (r *reflStream) Header() (metadata.MD, error) { return nil, nil }
 func (r *reflStream) Trailer() metadata.MD         { return nil }
-func (r *reflStream) CloseSend() error             { r.closed = true; return nil }
-func (r *reflStream) Context() context.Context     { return r.ctx }
+func (r *reflStream) CloseSend() error {
+	r.closed = true
+	if r.b.FailCloseSend {
+		return status.Error(codes.Unavailable, "reflection stream broke while closing")
+	}
+	return nil
+}
+func (r *reflStream) Context() context.Context { return r.ctx }
 
 func (r *reflStream) SendMsg(m any) error {
 	req := m.(*rpb.ServerReflectionRequest)
